@@ -26,7 +26,9 @@ TYPES = ("CustomAuth", "CustomControl", "CustomFilter")
 CODES = [4096, 8235, 70, -1, 4294967295, 2 ** 32 + 4096, 2 ** 32 + 80, 2 ** 33 + 80, 2 ** 32 + 70]
 ALT = {"CustomAuth": "AltAuth", "CustomControl": "AltControl", "CustomFilter": "AltFilter"}
 SLOT = {"CustomAuth": "auth", "AltAuth": "auth", "CustomControl": "control", "AltControl": "control",
-        "CustomFilter": "filter", "AltFilter": "filter"}
+        "CustomFilter": "filter", "AltFilter": "filter", "EdgeFilter1280": "filter1280", "EdgeFilter2048": "filter2048",
+        "SubEquality": "filter1025"}
+EXTRA_FILTERS = ("EdgeFilter1280", "EdgeFilter2048", "SubEquality")
 
 
 # ------------------------------------------------------------------ child side (runs library code)
@@ -141,6 +143,34 @@ def _registration_semantics(customs_bytes):
                                  "type is registered from the start" % (meth0, cls0.__name__, role_cls.__name__)])
             elif not isinstance(e, ValueError):
                 problems.append(["duplicate-registration-accepted/%s" % cls0.__name__, "duplicate registration raised %s" % type(e).__name__])
+    # registering AFTER the session has already decoded traffic must take effect as well
+    late_c = sansldap.LDAPClient()
+    ok, mid1 = guarded("registration-missing/late", "extended_request on a fresh client", late_c.extended_request, "1.2.3")
+    if ok:
+        late_c.data_to_send()
+        first = rfc4511.enc_msg({"t": "ExtendedResponse", "id": mid1, "controls": [{"t": "Control", "type": "2.16.840.1.113730.3.4.2",
+                                 "critical": False, "value": None}, {"t": "Paged", "critical": False, "size": 1, "cookie": ""}],
+                                 "name": None, "value": None, "result": {"code": 0, "matched_dn": "", "diag": ""}})
+        guarded("registration-missing/late", "receive before the late registration", late_c.receive, first)
+        guarded("registration-missing/late", "register_control after traffic", late_c.register_control, ct.BY_NAME["CustomControl"])
+        ok, mid2 = guarded("registration-missing/late", "second extended_request", late_c.extended_request, "1.2.3")
+        if ok:
+            late_c.data_to_send()
+            second = rfc4511.enc_msg({"t": "ExtendedResponse", "id": mid2, "controls": [{"t": "CustomControl", "critical": True, "size": 7}],
+                                      "name": None, "value": None, "result": {"code": 0, "matched_dn": "", "diag": ""}})
+            ok, r = guarded("registration-missing/late", "receive after the late registration", late_c.receive, second)
+            if ok and (not r or not r[0].controls or type(r[0].controls[0]).__name__ != "CustomControl"):
+                problems.append(["registration-missing/late-control", "a control type registered after the session had already decoded "
+                                 "controls is still decoded as %s" % (type(r[0].controls[0]).__name__ if r and r[0].controls else None)])
+    late_s = sansldap.LDAPServer()
+    guarded("registration-missing/late", "receive before the late registration", late_s.receive,
+            rfc4511.enc_msg(expected_message("search_request", {"filter": {"t": "Equality", "attribute": "cn", "value": "78"}}, 1)))
+    guarded("registration-missing/late", "register_filter after traffic", late_s.register_filter, ct.BY_NAME["CustomFilter"])
+    guarded("registration-missing/late", "register_auth_credential after traffic", late_s.register_auth_credential, ct.BY_NAME["CustomAuth"])
+    ok, r = guarded("registration-missing/late-filter", "receive of a custom filter registered after traffic", late_s.receive,
+                    rfc4511.enc_msg(dict(expected_message("search_request", {}, 2), filter={"t": "And", "filters": [{"t": "CustomFilter", "value": "abc"}]})))
+    if ok and (not r or type(r[0].filter.filters[0]).__name__ != "CustomFilter"):
+        problems.append(["registration-missing/late-filter", "late registered filter decoded as %r" % (r,)])
     # a custom control deriving from a public built-in control class: still per session only
     for role_cls in (sansldap.LDAPClient, sansldap.LDAPServer):
         fresh = role_cls()
@@ -295,7 +325,8 @@ class C19(PropBase):
         gs = []
         for i in range(init["nsessions"]):
             gs.append({"role": init["roles"][i], "model": Model(init["roles"][i]), "regs": set(), "n": 0, "next_req": 1,
-                       "plan_regs": [(t if rng.random() < 0.6 else ALT[t]) for t in TYPES if rng.random() < 0.45]})
+                       "plan_regs": [(t if rng.random() < 0.6 else ALT[t]) for t in TYPES if rng.random() < 0.45] +
+                                    [t for t in EXTRA_FILTERS if rng.random() < 0.3]})
         return gs
 
     def next_op(self, st, rng):
@@ -333,7 +364,7 @@ class C19(PropBase):
                 t = rng.choice(todo)
                 g["regs"].add(t)
             else:
-                t = rng.choice(TYPES + tuple(ALT.values())) if not g["regs"] or rng.random() < 0.3 else rng.choice(sorted(g["regs"]))
+                t = rng.choice(TYPES + tuple(ALT.values()) + EXTRA_FILTERS) if not g["regs"] or rng.random() < 0.3 else rng.choice(sorted(g["regs"]))
                 if SLOT[t] not in {SLOT[x] for x in g["regs"]} and rng.random() < 0.5:
                     g["regs"].add(t)
             from ..customtypes import REGISTER_METHOD
@@ -427,8 +458,17 @@ class C19(PropBase):
             return {"k": "recv", "hex": data.hex(), "custom": "CustomControl"}
         mid = g["next_req"]
         g["next_req"] += 1
-        which = rng.choice(TYPES)
-        if which == "CustomControl":
+        which = rng.choice(TYPES + EXTRA_FILTERS)
+        if which in EXTRA_FILTERS:
+            msg = expected_message("search_request", gen.a_search_request(), mid)
+            if which == "SubEquality":
+                inner = {"t": "SubEquality", "attribute": "flags", "value": "31"}
+            else:
+                inner = {"t": "EdgeFilter", "n": int(which[len("EdgeFilter"):]), "value": "v"}
+            # sometimes next to the built-in kind it derives from / an ordinary equality filter
+            msg["filter"] = rng.choice([inner, {"t": "And", "filters": [{"t": "Equality", "attribute": "cn", "value": "78"}, inner]},
+                                        {"t": "Or", "filters": [inner, {"t": "Equality", "attribute": "cn", "value": "78"}]}])
+        elif which == "CustomControl":
             msg = policy.byz_request(gen, mid, "ExtendedRequest")
             msg["controls"] = [{"t": "CustomControl", "critical": rng.random() < 0.5, "size": rng.choice([0, 7, 65536])}]
         elif which == "CustomFilter":
